@@ -80,3 +80,5 @@ def replay(ctx, payload):
     real = R.real_remap(inp["input"], inp["ptx"], inp["bpt"])
     msgs = oracle(inp, real)
     return {"fails": bool(msgs), "oracle": msgs, "real": real}
+
+LEVEL_NOTE = LEVEL_NOTE + ' NEW: name uniqueness in EVERY output assembly (Properties/C10Unique.lean): `remap_names_unique`, `remap_names_unique_named`, `remap_names_unique_curated` under the explicit decidable `NamesOutsideGenerated` (+ one of two clause-7 forms for the Contaminant / FalseDuplicate assemblies), each clause with a `decide +kernel` counter-example through `remap` reproduced on the real code — one of them realistic: open finding F20 (homologues sharing a name tag give duplicate names in the false-duplicates / contaminants assembly); chr_report rows (Properties/C10Report.lean)'
